@@ -45,21 +45,24 @@ func SentinelClientMiddleware(opts ...Option) func(endpoint.Endpoint) endpoint.E
 				slotChain.AddRuleCheckSlot(outlier.DefaultSlot)
 				slotChain.AddStatSlot(outlier.DefaultMetricStatSlot)
 				resourceName := ServiceNameExtract(ctx)
-				entry, _ := sentinel.Entry(
+				entry, blockErr := sentinel.Entry(
 					resourceName,
 					sentinel.WithResourceType(base.ResTypeRPC),
 					sentinel.WithTrafficType(base.Outbound),
 					sentinel.WithSlotChain(slotChain),
 				)
+				if blockErr != nil {
+					return options.BlockFallback(ctx, req, resp, blockErr)
+				}
 				defer entry.Exit()
 				filterNodes = entry.Context().FilterNodes()
 				halfNodes = entry.Context().HalfOpenNodes()
 				err := next(ctx, req, resp)
 				if callee := CalleeAddressExtract(ctx); callee != "" {
 					sentinel.TraceCallee(entry, callee)
-					if err != nil {
-						sentinel.TraceError(entry, err)
-					}
+				}
+				if err != nil {
+					sentinel.TraceError(entry, err)
 				}
 				return err
 			}
